@@ -22,7 +22,12 @@ vars == <<case>>
 Iso1 == [f |-> <<1, 2>>, c |-> <<3, 1>>, hl |-> 2, q |-> <<5, 1>>]
 Iso2 == [f |-> <<1, 4>>, c |-> <<1, 1>>, hl |-> 3, q |-> <<7, 2>>]
 Iso3 == [f |-> <<1, 1>>, c |-> <<1, 8>>, hl |-> 6, q |-> <<2, 1>>]
-IsoSets == {<<Iso1>>, <<Iso2>>, <<Iso3>>, <<Iso1, Iso2>>, <<Iso1, Iso2, Iso3>>, <<Iso3, Iso1>>}
+\* the same nuclides (half-life, heat production) in other abundances, incl. none at all: heating is linear in each concentration
+\* and mass fraction, whatever was evaluated before with the same nuclear constants
+Iso1b == [f |-> <<1, 3>>, c |-> <<1, 1>>, hl |-> 2, q |-> <<5, 1>>]
+Iso1z == [f |-> <<1, 2>>, c |-> <<0, 1>>, hl |-> 2, q |-> <<5, 1>>]
+Iso2b == [f |-> <<1, 4>>, c |-> <<4, 1>>, hl |-> 3, q |-> <<7, 2>>]
+IsoSets == {<<Iso1>>, <<Iso2>>, <<Iso3>>, <<Iso1, Iso2>>, <<Iso1, Iso2, Iso3>>, <<Iso3, Iso1>>, <<Iso1b>>, <<Iso1z, Iso2>>, <<Iso1b, Iso2b>>}
 RECURSIVE Pow2R(_)
 Pow2R(j) == IF j = 0 THEN ROne ELSE IF j > 0 THEN RMul(<<1, 2>>, Pow2R(j - 1)) ELSE RMul(<<2, 1>>, Pow2R(j + 1))   \* 2^-j
 \* dt = t - t_ref must be a multiple of every half-life in the set (multiples of 6 are)
